@@ -33,6 +33,18 @@ INFO = {
  "C18": ("dialer.go authenticateSASL: the error of the final SCRAM step is dropped", "SCRAM where the server's final message fails verification (wrong server signature / error in the last round): the connection is handed out as authenticated"),
  "C19": ("protocol/listoffsets (*Response).Merge: the partitions slice is re-made in the error branch", "Client.ListOffsets over partitions of several leaders when a later leader is unreachable: healthy partitions disappear from the answer"),
  "C19b": ("listoffset.go (*partitionOffsetV1).readFrom: returns at a non-zero error code before timestamp and offset are read", "a Conn offset query answered with a partition error, then any later query on the same Conn: stale bytes are read as the next response"),
+ "C03b": ("consumergroup.go fetchOffsets/makeAssignments: uncommitted partitions are left out of the offsets map and the hoisted `ok` flag is never reset", "a member assigned several partitions of a topic where one without a commit is listed before others that have one: those resume at StartOffset instead of their committed offset"),
+ "C04b": ("protocol/encode.go encodeCompactNullArray: tests length == 0 instead of isNil", "flexible version, nullable array field, non-nil empty slice (AlterPartitionReassignments replicas, ListPartitionReassignments topics): encoded as null"),
+ "C05b": ("protocol/buffer.go (*pageBuffer).refTo: an empty range takes no page reference (but still drops one when closed)", "a fetched batch with an empty non-null key/value next to another record on the same page: closing the empty one frees the page while the neighbour is still held; the next fetch overwrites it"),
+ "C07b": ("transport.go (*conn).roundTrip: SetReadDeadline instead of SetDeadline", "a broker that stops reading in the middle of a produce request for longer than WriteTimeout: the abandoned attempt stays alive on its connection and is applied after the retry and after the next batch"),
+ "C08b": ("message.go (*Message).headerSize: the bytes of header values are not counted", "messages whose size lies in record headers: BatchBytes exceeded, an oversized message not refused"),
+ "C11b": ("produce.go + conn.go: the v7 partition entry returns before StartOffset on error, and the error branch discards only the throttle time", "Produce v7+ answered with a partition error, then any operation on the same Conn (8 bytes left unread)"),
+ "C13b": ("balancer.go (*LeastBytes).Balance: counters rebuilt outside the mutex and installed without re-checking", "two Balance calls both passing the partition-count check before either installs the counters: the second zeroes what the first recorded"),
+ "C14b": ("groupbalancer.go RoundRobinGroupBalancer: partition id used instead of its index in the listing", "partitions listed in another order than 0..n-1, or sparse ids"),
+ "C16b": ("compress/snappy/snappy.go (*Codec).NewWriter: framing set only when a writer is constructed, not when it is taken from the pool", "a Framed and an Unframed snappy codec value used one after the other in one process: the stream has the other value's framing"),
+ "C17b": ("message_reader.go readMessageV2: remain decreased by the whole batch length instead of by what was read", "Conn.ReadBatch on a compressed v2 batch, connection lost inside the compressed payload where the codec sees a clean end of stream: batch ends with io.EOF, connection kept, offset may skip records"),
+ "C18b": ("sasl/scram (*session).Next: reports completion whenever the conversation is done, dropping the final step's error", "SCRAM whose last step fails in-band (invalid proof reported with error code 0, malformed or forged server-final message): the connection is used as authenticated"),
+ "C20b": ("protocol/decode.go checkArrayLength: signed comparison after converting the wire value to int", "flexible versions: a compact array length of 2^63+1 or more becomes negative and reaches makeArray"),
  "C20": ("protocol/decode.go (*decoder).read: the n < 0 guard is dropped", "flexible versions only: a compact string/bytes length or tagged-field size of 2^63 or more becomes a negative int and reaches make()"),
 }
 
